@@ -507,7 +507,7 @@ func splitGoal(goal string) []string {
 	if len(vs) == 1 {
 		return []string{vs[0].String()} // trigger copies dropped
 	}
-	if len(vs) == 0 || len(vs) > 12 {
+	if len(vs) == 0 || len(vs) > 24 {
 		return []string{goal}
 	}
 	var out []string
